@@ -59,6 +59,38 @@ Fixpoint search_sep (s : str) : option nat :=
                else match search_sep s' with Some k => Some (S k) | None => None end
   end.
 
+(** [_BARE_SCHEME.fullmatch(s)] for [_BARE_SCHEME = "[^<excl>]+<colon>/?/?"]:
+    a non-empty run of characters outside the class, the colon character,
+    then at most [c_BARE_SCHEME_MAX_SLASHES] slashes and nothing else.  The
+    colon is itself in the excluded class (checked by gen_consts.py), so the
+    greedy run is the only possible match of the first part. *)
+Definition in_excl (c : ascii) : bool := existsb (Ascii.eqb c) c_BARE_SCHEME_EXCL.
+
+Fixpoint span_not_excl (s : str) : str * str :=
+  match s with
+  | [] => ([], [])
+  | c :: s' => if in_excl c then ([], s) else let (a, b) := span_not_excl s' in (c :: a, b)
+  end.
+
+Definition opt_slashes (s : str) : bool :=
+  forallb (fun a => Ascii.eqb a "/"%char) s && Nat.leb (List.length s) c_BARE_SCHEME_MAX_SLASHES.
+
+Definition bare_scheme_match (s : str) : bool :=
+  let (scheme, rest) := span_not_excl s in
+  match scheme, rest with
+  | _ :: _, c :: rest' => str_eqb [c] c_BARE_SCHEME_COLON && opt_slashes rest'
+  | _, _ => false
+  end.
+
+(** the second test of [_determine_suitable_iri_pattern].  Two shapes of the
+    source are recognised by gen_consts.py ([c_min_iri_rule_bare]): the current
+    one, [_BARE_SCHEME.fullmatch(candidate)], and the former one,
+    [candidate.startswith("http") and len(candidate) < 9]; the constants of the
+    shape that is absent from the source are inert placeholders. *)
+Definition scheme_test (candidate : str) : bool :=
+  if c_min_iri_rule_bare then bare_scheme_match candidate
+  else prefixb c_min_iri_http_prefix candidate && (pylen candidate <? c_min_iri_http_len).
+
 Definition determine (longest_common_prefix : str) : option str :=
   let backwards_str := rev longest_common_prefix in                    (* [::-1] *)
   match search_sep backwards_str with
@@ -66,7 +98,7 @@ Definition determine (longest_common_prefix : str) : option str :=
   | Some k =>
     let candidate := rev (skipn k backwards_str) in                   (* backwards_str[start:][::-1] *)
     if pylen candidate <? c_min_iri_min_len then None
-    else if prefixb c_min_iri_http_prefix candidate && (pylen candidate <? c_min_iri_http_len) then None
+    else if scheme_test candidate then None
     else Some candidate
   end.
 
